@@ -4,7 +4,7 @@
 -/
 import GIV.Lemmas.ParWorkInv
 namespace GIV.ParWork
-open GIV.Gen.Par
+open GIV.Gen.ParWork
 
 /-- holds `w.mu` -/
 def Pc.holder : Pc → Bool
